@@ -8,7 +8,7 @@ from transcheck import tla_seq
 from vlib import (SPEC, build_harness, case_hash, log, run_harness, run_tlc, require_ok, seed, workdir,
                   write_replay)
 
-MAXS = 6
+MAXS = 33
 
 
 def model(wd, name, nmsgs, wake_first=False):
@@ -67,11 +67,20 @@ def run(tier):
     nsc = 300 if tier == "quick" else 3000
     scs = []
     for i in range(nsc):
-        n = rnd.randrange(1, MAXS + 1)
+        n = rnd.randrange(1, 7)
         msgs = [rnd.choice([0, 1, 2, 3, 5, 8, 8, 40, 50]) for _ in range(n)]
         scs.append({"id": i, "seed": rnd.randrange(1 << 30), "msgs": msgs,
                     "pre": [rnd.choice([0, m, rnd.randrange(0, m + 1)]) for m in msgs],
                     "consumer": [rnd.choice(["block_on", "manual", "manual", "pool"]) for _ in range(n)]})
+    # bursts: many empty channels converted at the same instant from as many threads; afterwards traffic only on
+    # one of them while all other senders stay idle for a while (a route stranded in the queue gets no help)
+    for i in range(nsc, nsc + (12 if tier == "quick" else 120)):
+        n = rnd.choice([8, 16, 24, 33])
+        target = rnd.randrange(n)
+        scs.append({"id": i, "seed": rnd.randrange(1 << 30), "msgs": [5 if k == target else rnd.choice([0, 1]) for k in range(n)],
+                    "pre": [0] * n, "burst": True, "delay": [0 if k == target else 6000 for k in range(n)],
+                    "consumer": [rnd.choice(["block_on", "manual"]) for _ in range(n)]})
+    nsc = len(scs)
     validated = 0
     B = 100 if tier == "quick" else 250
     for b in range(0, nsc, B):
@@ -99,6 +108,10 @@ def run(tier):
                     want = list(range(1, sc["msgs"][st["s"] - 1] + 1))
                     if st["stuck"]:
                         why = "stream %d: poll returned Pending and the task was never woken (8 s)" % st["s"]
+                    elif sc.get("burst") and sc["delay"][st["s"] - 1] == 0 and st.get("elapsed_ms", 0) > 4000:
+                        why = ("stream %d: its %d messages were sent and its sender dropped while every other channel was "
+                               "idle, yet it took %d ms to be consumed (its route was stranded until unrelated traffic)" % (
+                                   st["s"], len(want), st["elapsed_ms"]))
                     elif st["got"] != want or not st["ended"]:
                         why = "stream %d (%s): yielded %s ended=%s, sent %s" % (st["s"], st["consumer"], st["got"],
                                                                                 st["ended"], want)
